@@ -1,0 +1,60 @@
+//! Verification hook H5 (compiled only with `--cfg dnp3_verif`): one thread-local, ordered trace of
+//! what a session does at its boundaries - fragments handed to the (mock) transport writer, calls
+//! into the database with their results - stamped with virtual time. The verification harness
+//! adds the callbacks it receives to the same trace, so that the order of all observable effects
+//! of a step is recorded exactly.
+
+use std::cell::{Cell, RefCell};
+
+thread_local! {
+    static TRACE: RefCell<Vec<String>> = const { RefCell::new(Vec::new()) };
+    static BASE: Cell<Option<tokio::time::Instant>> = const { Cell::new(None) };
+    static ENABLED: Cell<bool> = const { Cell::new(false) };
+}
+
+/// start recording; virtual time is measured from now
+pub(crate) fn start() {
+    TRACE.with(|t| t.borrow_mut().clear());
+    BASE.with(|b| b.set(Some(tokio::time::Instant::now())));
+    ENABLED.with(|e| e.set(true));
+}
+
+pub(crate) fn stop() {
+    ENABLED.with(|e| e.set(false));
+}
+
+pub(crate) fn enabled() -> bool {
+    ENABLED.with(|e| e.get())
+}
+
+/// milliseconds of virtual time since `start`
+pub(crate) fn now_ms() -> u128 {
+    BASE.with(|b| match b.get() {
+        Some(base) => tokio::time::Instant::now()
+            .saturating_duration_since(base)
+            .as_millis(),
+        None => 0,
+    })
+}
+
+pub(crate) fn log(line: String) {
+    if enabled() {
+        let t = now_ms();
+        TRACE.with(|tr| tr.borrow_mut().push(format!("{t} {line}")));
+    }
+}
+
+pub(crate) fn drain() -> Vec<String> {
+    TRACE.with(|t| t.borrow_mut().drain(..).collect())
+}
+
+pub(crate) fn hex(data: &[u8]) -> String {
+    if data.is_empty() {
+        return "-".to_string();
+    }
+    let mut s = String::with_capacity(data.len() * 2);
+    for b in data {
+        s.push_str(&format!("{b:02x}"));
+    }
+    s
+}
